@@ -9,7 +9,7 @@ RULE = ("sessions against 0-4 scripted Keep services (per-request answers drawn 
         "last data, optionally failing Close, delivered in pieces of 1..1000 bytes) over 1-6 planted blocks "
         "(locators with consistent, missing, wrong, oversized or negative size hints, extra hints, the empty "
         "block, two locators sharing one hash, size hints beyond 32 bits and Content-Lengths above 64 MiB), Retries 0-3, BlockCache MaxBlocks 0-3; ops: Get + ReadAll / "
-        "WriteTo / ReadFull(m)+Close, Ask, ReadAt at many offsets, File.Read/Seek over a one-file manifest; multi-stream multi-file collections (1-3 streams, files sharing blocks, tokens straddling block boundaries, several handles via CollectionFileReader); "
+        "WriteTo / ReadFull(m)+Close, Ask, ReadAt at many offsets, BlockCache.Get with the returned slice held and re-inspected after later fetches and sweeps, PutB of a block from a buffer the caller then overwrites followed by cached reads of that block, File.Read/Seek over a one-file manifest; multi-stream multi-file collections (1-3 streams, files sharing blocks, tokens straddling block boundaries, several handles via CollectionFileReader); "
         "re-read sessions (every first answer is a wrong 200, then the same block is read again through the same cache); concurrent schedules (2-4 readers, 1-2 blocks, every fetch request blocked and released in scripted "
         "order); storedSegment.ReadAt with arbitrary offset/length/off/len. Non-trivial = at least one HTTP "
         "request was made (or, for seg, the backend was called); distinct = distinct case line")
@@ -215,6 +215,43 @@ def _block(rng, nsvc, uuids, retries, used, consistent_only=False, p_good=0.45, 
     return f"{loc}~{planted.hex()}~{_order(loc[:32], uuids)}~{';'.join(scripts)}", b, loc, hint
 
 
+def _add_hold_put(rng, ops, plants, nsvc, p):
+    """Sprinkle H (BlockCache.Get, keep the slice), V (look at a kept slice again, also at the very end, after
+    other blocks have been fetched and swept) and P (PutB of a block's content from a buffer the caller then
+    overwrites, followed later by cached reads of that block) into a session."""
+    ops = list(ops)
+    nheld = 0
+    if rng.random() < p:
+        for _ in range(rng.choice([1, 1, 2, 3])):
+            b = rng.randrange(len(plants))
+            if (plants[b][2] or 0) >= 200 or (plants[b][2] is None and rng.random() < 0.7):
+                continue
+            ops.insert(rng.randint(0, max(0, len(ops) // 2)), f"H{b}")
+            nheld += 1
+        # first H is held slice 0 etc. (order of appearance)
+        for k in range(nheld):
+            for _ in range(rng.randint(0, 2)):
+                pos = rng.randint(0, len(ops))
+                seen = sum(1 for o in ops[:pos] if o[0] == "H")
+                if seen > k:
+                    ops.insert(pos, f"V{k}")
+            ops.append(f"V{k}")
+        if rng.random() < 0.1:
+            ops.append(f"V{nheld + 1}")
+    if nsvc > 0 and rng.random() < p * 0.8:
+        for _ in range(rng.choice([1, 1, 2])):
+            b = rng.randrange(len(plants))
+            n = len(plants[b][0])
+            pos = rng.randint(0, len(ops))
+            # keep V indices valid: never insert between nothing that matters for them (P does not hold)
+            ops.insert(pos, f"P{b}")
+            for _ in range(rng.randint(1, 2)):
+                q = rng.randint(pos + 1, len(ops))
+                ops.insert(q, rng.choice([f"R{b}:0:{max(1, n)}", f"R{b}:{n // 2}:300", f"H{b}"]) if False else
+                           rng.choice([f"R{b}:0:{max(1, n)}", f"R{b}:{n // 2}:300"]))
+    return ops
+
+
 def _gen_sess(rng, want_file=False, sweepy=False):
     nsvc = rng.choice([1, 2, 2, 3, 3, 4, 4, 0]) if rng.random() < 0.97 else 0
     if nsvc == 0 and rng.random() < 0.7:
@@ -268,6 +305,8 @@ def _gen_sess(rng, want_file=False, sweepy=False):
                 ops.append(f"G{b}{m}")
             else:
                 ops.append(f"A{b}")
+    if not want_file:
+        ops = _add_hold_put(rng, ops, plants, nsvc, 0.8 if sweepy else 0.35)
     return f"sess {retries} {maxb} {','.join(uuids) or '-'} {'|'.join(blocks)} {toks} {','.join(ops) or '-'}"
 
 
@@ -642,6 +681,7 @@ def oracle(case, impl):
                 files = None
     # handles: [path or None, position]
     handles = [["f", 0]] if (f[5] != "-" and "=" not in f[5]) else []
+    held = []
     for op, o in zip(ops, outs):
         p = o.split(":")
         if op[0] == "G":
@@ -664,6 +704,17 @@ def oracle(case, impl):
                 if rcls == "ok" and ccls == "ok":
                     if not plant_ok or data != blk["planted"][:m] or len(data) != m:
                         return "ReadFull+Close succeeded with bytes that are not a prefix of the named content"
+        elif op[0] == "H":
+            held.append(p[1])
+            if p[2] == "ok":
+                why = _check_read(blocks[int(op[1:])], 0, 1 << 30, bytes.fromhex(p[1]), "BlockCache.Get")
+                if why:
+                    return why
+        elif op[0] == "V":
+            k = int(op[1:])
+            if k < len(held) and p[1] != held[k]:
+                return (f"bytes obtained from BlockCache.Get changed after the call had returned: were "
+                        f"{held[k][:64]}, now {p[1][:64]}")
         elif op[0] == "R":
             b, off, ln = (int(x) for x in op[1:].split(":"))
             n, data, cls = int(p[1]), bytes.fromhex(p[2]), p[3]
@@ -734,12 +785,12 @@ def _wrongly_sized(blocks, ops, outs, counts, log, nsvc=1):
     for op, o, c in zip(ops, outs, counts):
         seg, prev = answers[prev:c], c
         p = o.split(":")
-        if not seg and nsvc > 0 and op[0] in "Rr" and p[-1] in FETCH_ERRS:
+        if not seg and nsvc > 0 and op[0] in "RrH" and p[-1] in FETCH_ERRS:
             # '... and the bad response is not kept in the block cache to satisfy later reads': a cached read
             # that reports a fetch error without having asked any service was answered from a kept failure
             return (f"op {op} returned the fetch error '{p[-1]}' without asking any Keep service: "
                     "a failed response was kept in the block cache and answered a later read")
-        if not seg or op[0] not in "GRr":
+        if not seg or op[0] not in "GRrH":
             continue
         if op[0] == "G":
             if len(p) != 5:
@@ -747,6 +798,8 @@ def _wrongly_sized(blocks, ops, outs, counts, log, nsvc=1):
             ok = p[3] == "ok" and (op[-1] in "rw" or p[4] == "ok")
         elif op[0] == "R":
             ok = p[3] == "ok"
+        elif op[0] == "H":
+            ok = p[2] == "ok"
         else:
             ok = len(p) == 3 and p[2] in ("ok", "eof") and len(p[1]) > 0
         if not ok:
@@ -805,6 +858,8 @@ def describe(cases, impl):
                 key = "seg:" + cls[2]
             elif f[0] == "conc":
                 key = "conc:" + cls[-1]
+            elif cls[0] == "v":
+                key = "v:none" if cls[-1] == "none" else "v:bytes"
             elif cls[0] == "g" and len(cls) == 5:
                 key = "g:" + cls[3] + "/" + cls[4]
             elif cls[0] in ("a", "k") and cls[-1].isdigit():
